@@ -341,10 +341,13 @@ def run(ctx: Ctx) -> Report:
     n_hyp = ctx.pick(1200, 32000)
     n_prog, n_var = ctx.pick((14, 4), (190, 6))
     tasks: List[Tuple[Any, ...]] = []
+    # core.mix32(seed, shard, ...) begins with seed ^ shard, so small seeds would only permute the shard streams;
+    # avalanche the seed first so that different VERIF_SEEDs explore different cases.
+    base = mix32(ctx.seed, 0xC18C18)
     for i in range(16):
-        tasks.append(("cpu", i, ctx.seed, n_prog, n_var))
+        tasks.append(("cpu", i, base, n_prog, n_var))
     for i in range(16):
-        tasks.append(("hyp", i, ctx.seed, n_hyp))
+        tasks.append(("hyp", i, base, n_hyp))
     for i in range(n_enum):
         tasks.append(("enum", i, n_enum, ctx.tier))
     reports = ctx.pmap(_dispatch, tasks)
